@@ -158,6 +158,20 @@ class ISO8601Point(PointBase):
     def _cmp(self, other: 'ISO8601Point') -> int:
         return self._iso_point_cmp(self.value, other.value, CALENDAR.mode)
 
+    def __hash__(self) -> int:
+        # Equal points (same instant) must hash equal whatever their
+        # spelling or time zone.
+        return self._iso_point_hash(self.value)
+
+    @staticmethod
+    @lru_cache(_LRU_CACHE_SIZE)
+    def _iso_point_hash(point_string: str) -> int:
+        try:
+            # (TimePoint hashes by UTC value)
+            return hash(point_parse(point_string))
+        except (IsodatetimeError, ValueError):
+            return hash(point_string)
+
     @staticmethod
     @lru_cache(_LRU_CACHE_SIZE)
     def _iso_point_cmp(point_string, other_point_string, _calendar_mode):
